@@ -122,11 +122,17 @@ Proof.
         destruct (nk a), (nk b); cbn in *; try discriminate; reflexivity.
 Qed.
 
-Lemma div_zero_eq_spec : forall a b,
-  res_cls (div_zero a b) = res_cls (div_zero_spec a b) /\ res_err (div_zero a b) = res_err (div_zero_spec a b) /\
-  (promote (nk a) (nk b) <> KFlt -> div_zero a b = div_zero_spec a b).
+Lemma div_zero_eq_spec : forall a b, div_zero a b = div_zero_spec a b.
 Proof.
   intros a b. unfold div_zero, div_zero_spec.
+  destruct (nk a), (nk b); cbn [andb promote]; try reflexivity;
+    destruct (is_nan a), (is_zero a), (negative a), (negative b); reflexivity.
+Qed.
+Lemma div_zero_old_eq_spec : forall a b,
+  res_cls (div_zero_old a b) = res_cls (div_zero_spec a b) /\ res_err (div_zero_old a b) = res_err (div_zero_spec a b) /\
+  (promote (nk a) (nk b) <> KFlt -> div_zero_old a b = div_zero_spec a b).
+Proof.
+  intros a b. unfold div_zero_old, div_zero_spec.
   destruct (nk a), (nk b); cbn [andb promote]; try (repeat split; reflexivity);
     destruct (is_nan a), (is_zero a), (negative a), (negative b); cbn; repeat split; try reflexivity;
     intros H; try reflexivity; exfalso; apply H; reflexivity.
@@ -142,9 +148,10 @@ Definition special_pair (a b : num) : bool :=
   negb (match nc a, nc b with Fin, Fin => true | _, _ => false end) || is_zero b.
 Definition res_val (r : res) : option (Z * Z) :=
   match r with Val v => match nc v with Fin => Some (nm v, ne v) | _ => None end | Err _ => None end.
+Definition res_kind (r : res) : option kind := match r with Val v => Some (nk v) | Err _ => None end.
 Lemma mod_special_eq_spec : forall a b, wf_num a = true -> wf_num b = true -> special_pair a b = true ->
   res_cls (mod_ false a b) = res_cls (mod_special_spec a b) /\ res_err (mod_ false a b) = res_err (mod_special_spec a b) /\
-  res_val (mod_ false a b) = res_val (mod_special_spec a b).
+  res_val (mod_ false a b) = res_val (mod_special_spec a b) /\ res_kind (mod_ false a b) = res_kind (mod_special_spec a b).
 Proof.
   intros [ka ca ma ea] [kb cb mb eb] Wa Wb S.
   unfold wf_num, special_pair, mod_, mod_special_spec, is_zero, is_inf, is_nan, negative in *. cbn [nk nc nm ne] in *.
